@@ -277,7 +277,7 @@ func runZip(ctx *Ctx) {
 		box := newBox()
 		var es []string
 		for i, n := range h {
-			es = append(es, zh(n)+":"+zh(fmt.Sprintf("c%d", i)))
+			es = append(es, zh(n)+":"+zh(fmt.Sprintf("c%d", i)+strings.Repeat("x", 9-3*(i%4))))
 		}
 		do("unzip %s %s", zh(filepath.Join(box, "dest")), strings.Join(es, ","))
 	}
@@ -308,7 +308,7 @@ func runZip(ctx *Ctx) {
 			if n == "" {
 				n = "z"
 			}
-			es = append(es, zh(n)+":"+zh(fmt.Sprintf("c%d", j)))
+			es = append(es, zh(n)+":"+zh(fmt.Sprintf("c%d", j)+strings.Repeat("y", 9-3*(j%4))))
 		}
 		do("unzip %s %s", zh(filepath.Join(box, "dest")), strings.Join(es, ","))
 	}
